@@ -512,9 +512,6 @@ fn gen_cfg(rng: &mut Rng, st: &mut Stats) -> Cfg {
 #[derive(Clone)]
 struct Written {
     value: Vec<u8>,
-    /// the stored bytes were the value compressed twice (F10 shape), written through a non-owner
-    /// proxy with active redirection
-    f10: bool,
     tainted: bool,
 }
 
@@ -559,7 +556,7 @@ impl Oracle {
         let enabled = cfg.strategy != 'd';
         let taint = |o: &mut Oracle, keys: &[Vec<u8>]| {
             for k in keys {
-                o.logical.insert(k.clone(), Written { value: vec![], f10: false, tainted: true });
+                o.logical.insert(k.clone(), Written { value: vec![], tainted: true });
             }
         };
         if name == "UMFORWARD" || name.is_empty() {
@@ -583,12 +580,7 @@ impl Oracle {
                 match r {
                     Resp::Bulk(BulkStr::Str(b)) => {
                         if *b != w.value {
-                            let once_more = zstd::decode_all(b.as_slice()).map(|d| d == w.value).unwrap_or(false);
-                            if w.f10 && cfg.ar && enabled && once_more {
-                                fails.push(("value written through a non-owner proxy (active redirection) is read back still compressed once".to_string(), "F10"));
-                            } else {
-                                fails.push((format!("{} returned bytes different from the value written", name), ""));
-                            }
+                            fails.push((format!("{} returned bytes different from the value written", name), ""));
                         }
                     }
                     Resp::Bulk(BulkStr::Nil) => fails.push((format!("{} returned nil for a key that was written", name), "")),
@@ -625,18 +617,19 @@ impl Oracle {
             let dec1 = zstd::decode_all(stored.as_slice()).ok();
             let good = cands.iter().find(|v| if enabled { dec1.as_ref() == Some(**v) } else { stored == **v });
             if let Some(v) = good {
-                self.logical.insert(k.clone(), Written { value: (*v).clone(), f10: false, tainted: false });
+                self.logical.insert(k.clone(), Written { value: (*v).clone(), tainted: false });
                 continue;
             }
+            // (F10, fixed in 04a2318: a forwarded write used to be stored compressed twice; any
+            // double compression is now a plain violation)
             let dec2 = dec1.as_ref().and_then(|d| zstd::decode_all(d.as_slice()).ok());
-            let twice = cands.iter().find(|v| dec2.as_ref() == Some(**v));
-            if let (Some(v), true, true, true) = (twice, cfg.ar, enabled, cfg.owner(k) != p) {
-                fails.push(("write forwarded by active redirection is stored compressed twice".to_string(), "F10"));
-                self.logical.insert(k.clone(), Written { value: (*v).clone(), f10: true, tainted: false });
+            let twice = enabled && cands.iter().any(|v| dec2.as_ref() == Some(*v));
+            if twice {
+                fails.push((format!("{}: the value written is stored compressed twice", name), ""));
             } else {
                 fails.push((format!("{}: stored bytes are not the compressed form of the value written", name), ""));
-                taint(self, &[k.clone()]);
             }
+            taint(self, &[k.clone()]);
         }
         if name == "DEL" && matches!(reply, Resp::Integer(n) if n == b"1") && cmd.len() >= 2 {
             self.logical.remove(&cmd[1]);
@@ -878,7 +871,7 @@ impl Runner {
                 let fails = self.oracle.check(&cfg, p, &real, &reply, &log, &applied);
                 for (what, finding) in fails {
                     let c = self.s.cases;
-                    if finding == "F10" { self.s.stats.count("oracle.F10"); } else { self.s.stats.count("oracle.other_failure"); }
+                    self.s.stats.count("oracle.failure");
                     let replay = self.case_ops.clone();
                     self.s.stats.oracle_failure(c, &what, finding, replay);
                 }
@@ -939,7 +932,7 @@ fn cmd_line(p: usize, toy: &[Vec<u8>]) -> String {
 fn fixed_cases() -> Vec<Vec<String>> {
     let h = |s: &str| hex(s.as_bytes());
     let mut cases = vec![];
-    // F10 shape: SET via the non-owner with active redirection, GET at the owner and at the non-owner
+    // regression for F10 (fixed): SET via the non-owner with active redirection, GET at the owner and at the non-owner
     for maxr in ["-", "4"] {
         cases.push(vec![
             format!("cfg s 1 {} 0-8191", maxr),
@@ -1067,4 +1060,4 @@ fn main() {
     r.s.finish("compress", RULE);
 }
 
-const RULE: &str = "cases: fixed (F10 shape; every write form x read form per strategy) + generated system cases (cfg: strategy x active redirection x max redirections x slot split; 3-12 client commands over a small key pool: SET+options/SETEX/PSETEX/SETNX/GETSET/GET/MGET/MSET/MSETNX/DEL/EXISTS/restricted string commands/XECHO pass-through/unknown/malformed arity/client-crafted UMFORWARD/over-long names; values: empty, ascii, binary, incompressible, compressible, zstd-magic garbage, truncated frame, frame+garbage, CR/LF/NUL, 64KiB (1MiB in thorough), values that are valid frames; MOVED followed by the client) + unit cases (real try_compressing_cmd_ctx / decompress on random shapes); non-trivial = a case with compression enabled in which a read form returned a stored value; distinct = distinct op sequences";
+const RULE: &str = "cases: fixed (forwarded-write regression; every write form x read form per strategy) + generated system cases (cfg: strategy x active redirection x max redirections x slot split; 3-12 client commands over a small key pool: SET+options/SETEX/PSETEX/SETNX/GETSET/GET/MGET/MSET/MSETNX/DEL/EXISTS/restricted string commands/XECHO pass-through/unknown/malformed arity/client-crafted UMFORWARD/over-long names; values: empty, ascii, binary, incompressible, compressible, zstd-magic garbage, truncated frame, frame+garbage, CR/LF/NUL, 64KiB (1MiB in thorough), values that are valid frames; MOVED followed by the client) + unit cases (real try_compressing_cmd_ctx / decompress on random shapes); non-trivial = a case with compression enabled in which a read form returned a stored value; distinct = distinct op sequences";
